@@ -1208,8 +1208,26 @@ func (bf *boundsFunc) assignOp(s *bstate, l, r ast.Expr, tok token.Token, _ bool
 // callResultFacts adds facts about the results of well-known search functions.
 func (bf *boundsFunc) callResultFacts(s *bstate, lhs []ast.Expr, r ast.Expr) {
 	c, ok := ast.Unparen(r).(*ast.CallExpr)
+	off := int64(0) // v = call + off
 	if !ok {
-		return
+		// v = bytes.LastIndexByte(x, c) + 1
+		if be, isBin := ast.Unparen(r).(*ast.BinaryExpr); isBin && (be.Op == token.ADD || be.Op == token.SUB) && len(lhs) == 1 {
+			if k, isK := intValue(bf.info, be.Y); isK {
+				if cc, isCall := ast.Unparen(be.X).(*ast.CallExpr); isCall {
+					c, ok = cc, true
+					off = k
+					if be.Op == token.SUB {
+						off = -k
+					}
+				}
+			}
+		}
+		if !ok {
+			return
+		}
+		if fn := callee(bf.info, c); fn == nil || fn.Pkg() == nil || !(fn.Pkg().Path() == "bytes" || fn.Pkg().Path() == "strings") || !strings.Contains(fn.Name(), "Index") {
+			return
+		}
 	}
 	fn := callee(bf.info, c)
 	if fn == nil || fn.Pkg() == nil {
@@ -1250,13 +1268,13 @@ func (bf *boundsFunc) callResultFacts(s *bstate, lhs []ast.Expr, r ast.Expr) {
 		}
 		lo := newLin()
 		lo.t[name] = -1
-		lo.c = -1
-		s.addLE(lo) // -i - 1 ≤ 0
+		lo.c = -1 + off
+		s.addLE(lo) // -(v - off) - 1 ≤ 0
 		up := newLin()
 		up.t[name] = 1
 		up = up.add(ln, -1)
-		up.c += w
-		s.addLE(up) // i + w - len ≤ 0
+		up.c += w - off
+		s.addLE(up) // (v - off) + w - len ≤ 0
 	case (pk == "strings" || pk == "bytes") && (fn.Name() == "CutPrefix" || fn.Name() == "CutSuffix") && len(c.Args) == 2 && len(lhs) == 2:
 		// rest, ok := CutPrefix(s, p): when ok, len(rest) + len(p) == len(s); always len(rest) ≤ len(s)
 		restK, okr := bf.pathKey(lhs[0])
